@@ -626,7 +626,60 @@ func (r *runner) partialSyncProbe() {
 	}
 	reads := [][]string{{"GET", "fleet", "t0"}, {"SCAN", "fleet", "LIMIT", "3", "IDS"}, {"NEARBY", "fleet", "LIMIT", "3", "IDS", "POINT", "33", "-112"}, {"WITHIN", "fleet", "LIMIT", "3", "IDS", "BOUNDS", "30", "-115", "35", "-110"},
 		{"INTERSECTS", "fleet", "LIMIT", "3", "IDS", "BOUNDS", "30", "-115", "35", "-110"}, {"SEARCH", "big", "LIMIT", "1", "IDS"}, {"GET", "big", "b9"}, {"GET", "fleet", "t299"},
+		{"TEST", "GET", "fleet", "t0", "INTERSECTS", "CLIP", "BOUNDS", "30", "-115", "35", "-110"}, {"TEST", "GET", "fleet", "t0", "WITHIN", "BOUNDS", "30", "-115", "35", "-110"}, {"STATS", "fleet"},
 		{"EVALRO", "return tile38.call('get','fleet','t0')", "0"}, {"EVALNA", "return tile38.call('scan','fleet','limit','2','ids')", "0"}}
+	// a second follower that caught up once, with another (small) leader, and is then pointed at
+	// this one: it has never caught up with its present leader either
+	small, err := srv.Start(srv.Opts{Bin: r.bin})
+	if err == nil {
+		defer small.Kill9()
+		f2, err2 := srv.Start(srv.Opts{Bin: r.bin})
+		if err2 == nil {
+			defer f2.Kill9()
+			if sc, err := dial(small.Addr()); err == nil {
+				sc.Do("SET", "other", "o1", "POINT", "1", "1")
+				sc.Close()
+			}
+			if c2, err := dial(f2.Addr()); err == nil {
+				defer c2.Close()
+				sh, sp, _ := net.SplitHostPort(small.Addr())
+				c2.Do("FOLLOW", sh, sp)
+				ok := false
+				for dl2 := time.Now().Add(10 * time.Second); time.Now().Before(dl2); time.Sleep(50 * time.Millisecond) {
+					if rp, err := c2.Do("HEALTHZ"); err == nil && rp.String() == "+OK" {
+						ok = true
+						break
+					}
+				}
+				if ok {
+					c2.Do("FOLLOW", "127.0.0.1", strconv.Itoa(px.Port()))
+					time.Sleep(1500 * time.Millisecond)
+					f2size := func() int64 {
+						fi, err := os.Stat(f2.AOFPath())
+						if err != nil {
+							return -1
+						}
+						return fi.Size()
+					}
+					for _, cmd := range reads[:8] {
+						s1 := f2size()
+						rp, err := c2.Do(cmd...)
+						s2 := f2size()
+						if err != nil || s2 >= L {
+							continue
+						}
+						ctx.Eval(1)
+						ctx.Distinct("partial-sync-after-switch|" + cmd[0] + "|" + cmd[1])
+						if !rp.IsErr() {
+							ctx.Violation("gate:follower-partial-sync:read-served-after-switch:"+strings.ToLower(cmd[0]), fmt.Sprintf("a follower that had caught up with another leader and was then pointed at this one (own log %d .. %d bytes, leader's %d bytes) answered %q with %s", s1, s2, L, cmd, trunc(rp.String(), 120)),
+								map[string]any{"command": cmd, "follower_log_bytes": []int64{s1, s2}, "leader_log_bytes": L})
+							return
+						}
+					}
+				}
+			}
+		}
+	}
 	for round := 0; round < 3; round++ {
 		for _, cmd := range reads {
 			s1 := fsize()
